@@ -442,6 +442,12 @@ def errors_x(g, thorough, count):
         wl = base.replace("w: dw 7\n", "w: dw 7\n" + mlib + "macro six(a,b,c,d,e,g) -> jmp a jz b jc c loop d jmp e jnz g <-\n", 1)
         out.append((wl.replace("mov ax, 1", "mov ax, 1\n" + use, 1), verdict))
         out.append((wl.replace("inc bx", "inc bx\n" + use, 1), verdict))
+    # indirect macro recursion through several macros (the diagnostic must not depend on the order of the active set)
+    for k in (2, 3, 4, 6):
+        names = ["rc%d" % i for i in range(k)]
+        lib = "".join("macro %s(a) -> inc a %s(a) <-\n" % (names[i], names[(i + 1) % k]) for i in range(k))
+        out.append((base.replace("w: dw 7\n", "w: dw 7\n" + lib, 1).replace("mov ax, 1", "mov ax, 1\n%s(bx)" % names[0], 1), "!refused"))
+        out.append((base.replace("w: dw 7\n", "w: dw 7\n" + lib, 1).replace("inc bx", "inc bx\n%s(cx)" % names[k - 1], 1), "!refused"))
     for a, n_ in [(1048575, 0), (1048575, 1), (0xFFFF0, 15), (0xFFFF0, 16), (0, 1048575), (0, 1048576)]:
         out.append((base.replace("mov ax, 1", "print mem %d : %d" % (a, n_), 1), None))
     # boundary values of the constant ranges (accepted / rejected by one)
